@@ -40,9 +40,22 @@ def vocabulary(repo: Repo, rep: Report) -> None:
     for file, q in targets:
         fn = repo.mod(file).func(q)
         rep.saw(file, q)
+        # single-assignment locals are looked through (`parity = (y % 2, x % 2)` ... `if parity == (0, 1)`)
+        assigned: Dict[str, List[ast.AST]] = {}
+        for node in ast.walk(fn):
+            if isinstance(node, ast.Assign) and len(node.targets) == 1 and isinstance(node.targets[0], ast.Name):
+                assigned.setdefault(node.targets[0].id, []).append(node.value)
+
+        def operands(e: ast.AST, depth: int = 0) -> List[ast.AST]:
+            if isinstance(e, ast.Tuple):
+                return [x for el in e.elts for x in operands(el, depth)]
+            if isinstance(e, ast.Name) and len(assigned.get(e.id, [])) == 1 and depth < 2 and isinstance(assigned[e.id][0], ast.Tuple):
+                return operands(assigned[e.id][0], depth + 1)
+            return [e]
+
         for node in ast.walk(fn):
             if isinstance(node, ast.Compare):
-                for s in [node.left] + list(node.comparators):
+                for s in [x for o in [node.left] + list(node.comparators) for x in operands(o)]:
                     n += 1
                     if isinstance(s, ast.Constant) and s.value is None:
                         continue
